@@ -245,8 +245,36 @@ def explore(run, step_fn, quick):
 WITNESSES = ["<p {x}y=1>", "<svg {a}b=1 xlink:href=c>", "<a:b c:d=1 xml:lang=e>x</a:b>", "<p a=1 A=2 b=3>", "<{x}y>z"]
 
 
+def char_texts(cp):
+    c = chr(cp)
+    return ["<p>a%s</p>" % c, "<p>%s%sa</p><p>%s</p><p>a%s </p>" % (c, c, c, c)]
+
+
+def _char_shard(args):
+    lo, hi = args
+    n, viol = 0, {}
+    for cp in range(lo, hi):
+        if 0xD800 <= cp <= 0xDFFF or cp in (0, 0x0D, 0x26, 0x3C):      # (NUL and CR are rewritten by the input stream; & and < are markup)
+            continue
+        for text in char_texts(cp):
+            n += 1
+            j = judge(text, "div")
+            if j is not None and ("chars:" + j[1]) not in viol:
+                viol["chars:" + j[1]] = engine.Violation(H, {"theme": "chars", "container": "div"}, text, j[2], j[3], j[0] + " (U+%04X)" % cp, "chars:" + j[1])
+    return n, viol
+
+
 def run(run):
     explore(run, step, run.tier == "quick")
+    # character sweep: how text is split into SpaceCharacters / Characters tokens is decided per character
+    top = 0x3100 if run.tier == "quick" else 0x10000
+    shards = [(lo, min(lo + 512, top)) for lo in range(0, top, 512)] + [(0xFEFF, 0xFF00), (0xFFF0, 0x10000), (0x1F600, 0x1F601), (0xE0020, 0xE0021)]
+    nchar = 0
+    for n, viol in engine.pmap(_char_shard, shards, chunksize=1):
+        nchar += n
+        for cls, v in viol.items():
+            run.violation(v)
+    run.set("character_sweep_texts", nchar)
     for w in WITNESSES:      # names with braces / colons, kept out of the themes (DESIGN section 9)
         for container in (None, "div"):
             run.add("witness_words")
